@@ -574,22 +574,31 @@ func (p *parser) endAmbiguity() {
 
 type parserProgress struct {
 	offset int
+	cursor int
 }
 
 func (p *parser) newProgress() parserProgress {
 	return parserProgress{
 		// -1, because the first call of checkProgress should succeed
 		offset: p.current.StartPos.Offset - 1,
+		cursor: p.tokens.Cursor(),
 	}
 }
 
 // checkProgress checks that the parser has made progress since it was called last with this parserProgress.
 func (p *parser) checkProgress(progress *parserProgress) bool {
 	parserOffset := p.current.StartPos.Offset
-	if parserOffset == progress.offset {
+	// NOTE: also consider the position in the token stream:
+	// consuming an empty token, e.g. the empty string segment between two expressions of a string template,
+	// is progress, even though the offset of the following token is the same.
+	parserCursor := p.tokens.Cursor()
+	if parserOffset == progress.offset &&
+		parserCursor == progress.cursor {
+
 		panic(errors.NewUnexpectedError("parser did not make progress"))
 	}
 	progress.offset = parserOffset
+	progress.cursor = parserCursor
 	return true
 }
 
